@@ -61,6 +61,7 @@ def pedantic(func: Optional[F] = None, require_docstring: bool = False) -> F:
             call.assert_uses_kwargs()
             return call.check_types()
 
+        @wraps(f)
         async def async_wrapper(*args: Any, **kwargs: Any) -> ReturnType:
             call = FunctionCall(func=decorated_func, args=args, kwargs=kwargs, context=get_context(2))
             call.assert_uses_kwargs()
